@@ -3,6 +3,7 @@
    stated for ALL values of the leaf, not only the basis values. *)
 From Coq Require Import ZArith List Bool Lia.
 From BP Require Import Bits Schema Spec PyRt Eqb PyEncTop PyDecProofs PyDecTop.
+From BP Require CMem CRt CTop OpMode OpModeProofs OpModeLeaf OpModeLeafDec.
 Import ListNotations.
 Open Scope Z_scope.
 
@@ -51,6 +52,51 @@ Theorem C14_space_wf :
      [PScalar; PArray 1; PArray 3; PAlias]) [0; 1; 2; 3; 4; 5; 6; 7]) all_leaf_types = true.
 Proof. vm_compute. reflexivity. Qed.
 Print Assumptions C14_space_wf.
+
+
+(* ---------- C runtime, little-endian build/host and big-endian build/host ---------- *)
+
+Theorem C14_c_le : forall k p t v,
+  CTop.c_schema (c14_schema k p t) -> has_ty (norm (c14_schema k p t)) v = true ->
+  CRt.c_encode_ty CMem.LE CMem.LE (c14_schema k p t) (CRt.store CMem.LE (norm (c14_schema k p t)) v)
+    = CMem.COk (wire (c14_schema k p t) v) /\
+  CRt.c_decode_ty CMem.LE CMem.LE (c14_schema k p t) (wire (c14_schema k p t) v)
+    = CMem.COk (CRt.store CMem.LE (norm (c14_schema k p t)) v).
+Proof. intros k p t v Hs Ht. split; [now apply CTop.c_encode_le|now apply CTop.c_decode_le]. Qed.
+Print Assumptions C14_c_le.
+
+Theorem C14_c_be : forall k p t v,
+  CTop.c_schema (c14_schema k p t) -> has_ty (norm (c14_schema k p t)) v = true ->
+  CRt.c_encode_ty CMem.BE CMem.BE (c14_schema k p t) (CRt.store CMem.BE (norm (c14_schema k p t)) v)
+    = CMem.COk (wire (c14_schema k p t) v) /\
+  CRt.c_decode_ty CMem.BE CMem.BE (c14_schema k p t) (wire (c14_schema k p t) v)
+    = CMem.COk (CRt.store CMem.BE (norm (c14_schema k p t)) v).
+Proof. intros k p t v Hs Ht. split; [now apply CTop.c_encode_be|now apply CTop.c_decode_be]. Qed.
+Print Assumptions C14_c_be.
+
+(* ---------- optimization-mode statement generator: one scalar at an arbitrary offset,
+   all widths, storage sizes, kinds, object contents, C-LE / C-BE / Go (C04's single-field
+   theorems are exactly the C14 statement) ---------- *)
+
+Theorem C14_opmode_enc : forall L lf ch M u i0 s,
+  OpModeLeaf.leaf_ok lf -> OpModeLeaf.pat_ok lf u ->
+  OpMode.mem_get M ch = Some (OpMode.mkcell (OpMode.leaf_cty lf) u) ->
+  0 <= i0 -> bytes_ok s -> 0 <= bufZ s < 2 ^ i0 ->
+  i0 + OpMode.leaf_bits lf <= 8 * Z.of_nat (length s) ->
+  exists s',
+    OpMode.run (OpMode.leaf_stmts L true (ch, lf) i0) (OpMode.mkst s M) = Some (OpMode.mkst s' M) /\
+    bytes_ok s' /\ length s' = length s /\
+    bufZ s' = bufZ s + 2 ^ i0 * (u mod 2 ^ OpMode.leaf_bits lf).
+Proof. exact OpModeLeaf.leaf_encode. Qed.
+Print Assumptions C14_opmode_enc.
+
+Theorem C14_opmode_dec : forall L lf ch M0 S i0,
+  OpModeLeaf.leaf_ok lf -> OpMode.mem_get M0 ch = Some (OpMode.mkcell (OpMode.leaf_cty lf) 0) ->
+  0 <= i0 -> bytes_ok S -> i0 + OpMode.leaf_bits lf <= 8 * Z.of_nat (length S) ->
+  OpMode.run (OpMode.leaf_stmts L false (ch, lf) i0) (OpMode.mkst S M0) =
+  Some (OpMode.mkst S (OpMode.mem_set M0 ch (OpModeLeafDec.dec_pat lf (bufZ S / 2 ^ i0)))).
+Proof. exact OpModeLeafDec.leaf_decode. Qed.
+Print Assumptions C14_opmode_dec.
 
 Example C14_nonvacuous :
   let s := c14_schema 5 (PArray 3) (TInt 13) in
